@@ -778,10 +778,19 @@ where
         // is resolved statically.makes them actual function arguments for the
         // actual handler function.  From this point down, all of this is
         // resolved statically.
+        #[cfg(dropshot_verif)]
+        let verif_id = rqctx.request_id.clone();
         let funcparams = RequestExtractor::from_request(&rqctx, request)
             .await
             .map_err(<HandlerType::Error>::from)?;
+        #[cfg(dropshot_verif)]
+        crate::verif::emit(
+            "extract_ok",
+            serde_json::json!({ "id": verif_id }),
+        );
         let future = self.handler.handle_request(rqctx, funcparams);
+        #[cfg(dropshot_verif)]
+        let future = crate::verif::traced_handler(verif_id, future);
         future.await
     }
 }
